@@ -13,8 +13,11 @@ succeeds.
 The theorems are about `step` / `run` of `Electric.lean` (the model of `electricpb.Model` and of the
 ElectricApi / MemorySettingsApi servers after the fixes 6953a94, 7f1dc6a and 2b5cf2c, tied to /repo by the
 harness on every run) and about the interleaving semantics of `Conc.lean`.  `Op` contains the Model API
-operations (with their write options: upsert, expect-absent, expected value) and the server RPCs, so "ALL op
-sequences" mixes both levels freely.  `PropsMore.lean` has the theorems about the clock under concurrency,
+operations (with their write options: upsert, expect-absent, expected value, reset mask, and the caller's own
+check / before / after callbacks as ARBITRARY functions) and the server RPCs, so "ALL op sequences" mixes both
+levels freely.  The hypothesis `op.Tame` (Lemmas.lean) is about the caller-supplied code and reset mask of a
+`Model.UpdateMode`: it is `True` for every other operation and for every UpdateMode without interceptors and
+reset mask (`C19_options_plain`); `PropsOpts.lean` shows it is needed (`C19_options_fails`).  `PropsMore.lean` has the theorems about the clock under concurrency,
 rejected operations, upserts and checked configurations.
 -/
 namespace ScVerif.C19
@@ -27,22 +30,25 @@ I1 at most one mode is normal (count form and "any two normal modes are equal");
 I3 once the active mode was changed it refers to a stored mode; before that it is the placeholder;
 mode ids stay unique.  (I2 is `C19_I2_*` below: a delete of the active id is refused, so with I3 the
 active mode is never deleted.) -/
-theorem C19_inv (modes : List Mode) (active : Mode) (hcfg : InitOk modes) (ops : List Op) :
+theorem C19_inv (modes : List Mode) (active : Mode) (hcfg : InitOk modes) (ops : List Op)
+    (ht : ∀ op ∈ ops, op.Tame) :
     let s := run (St.config modes active) ops
     (s.modes.filter (·.normal)).length ≤ 1 ∧
     (∀ x ∈ s.modes, ∀ y ∈ s.modes, x.normal = true → y.normal = true → x = y) ∧
     (s.changed = true → ∃ x ∈ s.modes, x.id = s.active.id) ∧
     (s.changed = false → s.active = active) ∧
     (s.modes.map (·.id)).Nodup := by
-  have hi := run_inv (inv_config modes active hcfg) ops
+  have hi := run_inv (inv_config modes active hcfg) ops ht
   exact ⟨normal_count_le_one hi, hi.i1, hi.i3, hi.blank, hi.nodup⟩
 
 /-- `NewModel()` without options is the configuration `[]`, `Mode.blank`, which is `InitOk`. -/
-theorem C19_inv_default (ops : List Op) : Inv Mode.blank (run St.init ops) := run_inv inv_init ops
+theorem C19_inv_default (ops : List Op) (ht : ∀ op ∈ ops, op.Tame) : Inv Mode.blank (run St.init ops) :=
+  run_inv inv_init ops ht
 
 /-- **C19_inv, step form**: the invariant is inductive — every operation preserves it from ANY state that
 satisfies it (not only from the initial one). -/
-theorem C19_inv_step (p : Mode) (s : St) (hi : Inv p s) (op : Op) : Inv p (step s op).1 := step_inv hi op
+theorem C19_inv_step (p : Mode) (s : St) (hi : Inv p s) (op : Op) (ht : op.Tame) : Inv p (step s op).1 :=
+  step_inv hi op ht
 
 /-- **I2 (Model API).** Deleting the active id is refused with FailedPrecondition and changes nothing,
 with or without allow-missing, in every state. -/
@@ -73,7 +79,7 @@ theorem C19_I2_never_deleted (p : Mode) (s : St) (hi : Inv p s) (id : String) (a
     subst e
     rw [C19_I2_server_delete_active_refused] at h
     cases h
-  · exact (step_inv hi (.delete id am ex)).i3
+  · exact (step_inv hi (.delete id am ex) True.intro).i3
 
 /-- What `changeActiveMode` stores: the looked-up mode, stamped with the clock's current time when its
 id differs from the active id. -/
@@ -166,43 +172,49 @@ satisfying the invariant (any `InitOk` configuration). -/
 theorem C19_mutex_serialises (p : Mode) (s0 : St) (h0 : Inv p s0) (progs : Nat → List Op) (sched : List Nat) :
     let c := crun (cinit s0 progs) sched
     (∀ t u, (c.thr t).phase ≠ .idle → (c.thr u).phase ≠ .idle → t = u) ∧
-    (∃ ops, c.st = run s0 ops) ∧
-    Inv p c.st ∧ (c.st.modes.filter (·.normal)).length ≤ 1 := by
-  have hc := crun_inv (cinv_init s0 progs) sched
-  obtain ⟨ops, hops⟩ := hc.serial
-  have hinv : Inv p (crun (cinit s0 progs) sched).st := by rw [hops]; exact run_inv h0 ops
-  refine ⟨?_, ⟨ops, hops⟩, hinv, normal_count_le_one hinv⟩
-  intro t u ht hu
-  have h1 := hc.excl t ht
-  have h2 := hc.excl u hu
-  rw [h1] at h2
-  exact Option.some.inj h2
+    (∃ ops, c.st = run s0 ops ∧ ∀ op ∈ ops, ∃ t, op ∈ progs t) ∧
+    ((∀ t, ∀ op ∈ progs t, op.Tame) →
+      Inv p c.st ∧ (c.st.modes.filter (·.normal)).length ≤ 1) := by
+  have hc := crun_inv (cinv_init (fun op => ∃ t, op ∈ progs t) s0 progs (fun t op h => ⟨t, h⟩)) sched
+  obtain ⟨ops, hops, hfrom⟩ := hc.serial
+  refine ⟨?_, ⟨ops, hops, hfrom⟩, ?_⟩
+  · intro t u ht hu
+    have h1 := hc.excl t ht
+    have h2 := hc.excl u hu
+    rw [h1] at h2
+    exact Option.some.inj h2
+  · intro htame
+    have hinv : Inv p (crun (cinit s0 progs) sched).st := by
+      rw [hops]
+      exact run_inv h0 ops (fun op ho => by obtain ⟨t, ht⟩ := hfrom op ho; exact htame t op ht)
+    exact ⟨hinv, normal_count_le_one hinv⟩
 
 /-- **C19_pull_modes.** The invariants as a PullModes subscriber sees them: fold the ADD / UPDATE / REMOVE
 events of ANY run (from any `InitOk` configuration, seeded with the initial modes) into a view; after EVERY
 event — not only at the end — the view has at most one normal mode and unique ids, every operation
 publishes at most one event, and after all events the view is the model's mode list. -/
-theorem C19_pull_modes (modes : List Mode) (active : Mode) (hcfg : InitOk modes) (ops : List Op) :
+theorem C19_pull_modes (modes : List Mode) (active : Mode) (hcfg : InitOk modes) (ops : List Op)
+    (ht : ∀ op ∈ ops, op.Tame) :
     let s0 := St.config modes active
     (∀ k, let view := ((runEvents s0 ops).take k).foldl applyEvent s0.modes
       (view.filter (·.normal)).length ≤ 1 ∧ (view.map (·.id)).Nodup) ∧
     (runEvents s0 ops).foldl applyEvent s0.modes = (run s0 ops).modes ∧
-    (∀ s, Inv active s → ∀ op, (modeEvents s op).length ≤ 1) := by
+    (∀ s, Inv active s → ∀ op, op.Tame → (modeEvents s op).length ≤ 1) := by
   have h0 := inv_config modes active hcfg
-  refine ⟨?_, view_full _ h0 ops, fun s hs op => (modeEvents_view s hs op).2⟩
+  refine ⟨?_, view_full _ h0 ops ht, fun s hs op hop => (modeEvents_view s hs op hop).2⟩
   intro k
-  obtain ⟨s', hi', hv⟩ := view_prefix _ h0 ops k
+  obtain ⟨s', hi', hv⟩ := view_prefix _ h0 ops ht k
   simp only [hv]
   exact ⟨normal_count_le_one hi', hi'.nodup⟩
 
 /-- **C19_pull_active.** A PullActiveMode subscriber: an operation publishes at most one value, only when it
 succeeded in setting the active mode (and the value is new), and that value is the model's active mode afterwards (so, once an
 event was seen, the subscriber's latest value names a stored mode — I3). -/
-theorem C19_pull_active (p : Mode) (s : St) (hi : Inv p s) (op : Op) :
+theorem C19_pull_active (p : Mode) (s : St) (hi : Inv p s) (op : Op) (ht : op.Tame) :
     (activeEvents s op).length ≤ 1 ∧
     (∀ m ∈ activeEvents s op, m = (step s op).1.active ∧ (step s op).1.changed = true ∧
       ∃ x ∈ (step s op).1.modes, x.id = m.id) := by
-  have hi' := step_inv hi op
+  have hi' := step_inv hi op ht
   unfold activeEvents
   by_cases h : setsActive op = true ∧ (step s op).2.isOk = true ∧
       (s.changed = false ∨ (step s op).1.active ≠ s.active)
@@ -219,7 +231,11 @@ def mB : Mode := (Mode.mk4 "b" "tb" false (none))
 
 /-- A reachable state with a normal mode, a second mode and a changed active mode satisfies `Inv`
 (hypothesis of C19_clear / C19_delete), and the theorems' premises are inhabited there. -/
-example : Inv Mode.blank (run St.init [.add mA, .add mB, .changeActive "b" 7]) := run_inv inv_init _
+example : Inv Mode.blank (run St.init [.add mA, .add mB, .changeActive "b" 7]) :=
+  run_inv inv_init _ (by
+    intro op h
+    simp only [List.mem_cons, List.mem_nil_iff, or_false] at h
+    rcases h with rfl | rfl | rfl <;> exact True.intro)
 /-- a configured model: two initial modes (one normal) and a placeholder whose id is not a mode -/
 example : InitOk [mB, mA] ∧ (St.config [mB, mA] (Mode.mk4 "boot" "" false (none))).modes = [mA, mB] := by
   refine ⟨⟨by decide, ?_⟩, by decide⟩
